@@ -789,12 +789,14 @@ async fn judge_collection(
         for o in &valid {
             *per.entry(o.handle).or_default() += 1;
         }
+        // instances: every instance of which the collection shows a sample of any kind
+        let all_inst: std::collections::BTreeSet<InstanceHandle> = obs.iter().map(|o| o.handle).collect();
         let c = &model.cfg;
         let mut over: Option<(&str, String)> = None;
         if c.max_samples.map(|m| valid.len() as i32 > m).unwrap_or(false) {
             over = Some(("max_samples", format!("{} samples held, max_samples {}", valid.len(), c.max_samples.unwrap())));
-        } else if c.max_instances.map(|m| per.len() as i32 > m).unwrap_or(false) {
-            over = Some(("max_instances", format!("samples of {} instances held, max_instances {}", per.len(), c.max_instances.unwrap())));
+        } else if c.max_instances.map(|m| all_inst.len() as i32 > m).unwrap_or(false) {
+            over = Some(("max_instances", format!("samples (data or dispose/unregister notifications) of {} instances held, max_instances {}", all_inst.len(), c.max_instances.unwrap())));
         } else if let Some((_, n)) = per.iter().find(|(_, n)| c.max_spi.map(|m| **n > m).unwrap_or(false)) {
             over = Some(("max_samples_per_instance", format!("{n} samples of one instance held, max_samples_per_instance {}", c.max_spi.unwrap())));
         }
